@@ -6,6 +6,7 @@ import (
 	"math/rand"
 	"os"
 	"path/filepath"
+	"strings"
 	"time"
 
 	"github.com/xelaj/errs"
@@ -70,9 +71,22 @@ func c12(c *wk.Ctx) {
 		if c.Mine(idx) {
 			r := c.Rand(idx)
 			s := c12session(r)
-			kind := []string{"absolute", "relative", "bare", "dot-relative"}[k%4]
+			kind := []string{"absolute", "relative", "bare", "dot-relative", "dotdot", "parent-relative", "odd-name", "hidden", "symlinked-dir", "long-name"}[k%10]
 			var path string
 			switch kind {
+			case "dotdot":
+				path = filepath.Join("sub", "..") + "/sub/../" + fmt.Sprintf("u%d.json", idx)
+			case "parent-relative":
+				path = "../cwd/" + fmt.Sprintf("p%d.json", idx)
+			case "odd-name":
+				path = filepath.Join("sub", fmt.Sprintf("se ss\u00efon %d 'q\" [x].json", idx))
+			case "hidden":
+				path = fmt.Sprintf(".h%d", idx)
+			case "symlinked-dir":
+				os.Symlink(filepath.Join(cwd, "sub"), filepath.Join(base, "lnk"))
+				path = filepath.Join(base, "lnk", fmt.Sprintf("l%d.json", idx))
+			case "long-name":
+				path = filepath.Join(base, strings.Repeat("n", 200)+fmt.Sprintf("%d.json", idx))
 			case "absolute":
 				path = filepath.Join(base, fmt.Sprintf("s%d.json", idx))
 			case "relative":
@@ -233,12 +247,30 @@ func c12single(c *wk.Ctx, idx int, path, kind string, s *session.Session) {
 	c.Distinct("single", kind, len(s.Key), len(s.Hash), s.Salt, s.Hostname)
 }
 
+func mustGetwd() string {
+	d, err := os.Getwd()
+	if err != nil {
+		return "/"
+	}
+	return d
+}
+
 func c12history(c *wk.Ctx, idx int, r *rand.Rand, path string, coarse bool) {
 	defer os.Remove(path)
 	nl := 1 + r.Intn(3)
 	loaders := make([]session.SessionLoader, nl)
 	for i := range loaders {
-		loaders[i] = session.NewFromFile(path)
+		// the loaders may spell the one path differently (absolute / relative to the working directory / with "..")
+		sp := path
+		if rel, err := filepath.Rel(mustGetwd(), path); err == nil && i > 0 {
+			switch (idx + i) % 3 {
+			case 1:
+				sp = rel
+			case 2:
+				sp = filepath.Dir(rel) + "/./../" + filepath.Base(filepath.Dir(path)) + "/" + filepath.Base(rel)
+			}
+		}
+		loaders[i] = session.NewFromFile(sp)
 	}
 	var model *session.Session
 	pool := []*session.Session{c12session(r), c12session(r), c12session(r)}
